@@ -12,20 +12,25 @@ package app
 import (
 	"bytes"
 	"crypto/sha256"
+	"crypto/x509"
 	"encoding/hex"
 	"encoding/json"
+	"encoding/pem"
 	"fmt"
 	"io/ioutil"
 	"os"
 	"path/filepath"
 	"sort"
+	"strconv"
 	"sync"
 	"testing"
+	"time"
 
 	abci "github.com/tendermint/tendermint/abci/types"
 
 	vs "github.com/ovrclk/akash/verifsupport"
 	atypes "github.com/ovrclk/akash/x/audit/types"
+	ctypes "github.com/ovrclk/akash/x/cert/types"
 )
 
 type vMonC07 struct {
@@ -128,9 +133,34 @@ func (m *vMonC07) AfterTx(h *vHist, o *vTxObs) {
 			m.res.Count("attestation_delete", 1)
 		}
 	}
+	// coverage only (never a verdict): certificate txs whose validity window
+	// contains the real date but not this process's (skewed) wall clock - a
+	// transaction whose outcome depended on time.Now() would differ between
+	// the processes on exactly these
+	for _, msg := range o.Msgs {
+		if cc, ok := msg.(*ctypes.MsgCreateCertificate); ok {
+			if blk, _ := pem.Decode(cc.Cert); blk != nil {
+				if crt, err := x509.ParseCertificate(blk.Bytes); err == nil {
+					skewed := time.Now()
+					real := skewed.Add(-time.Duration(vC07Skew()) * time.Second)
+					in := func(t time.Time) bool { return !t.Before(crt.NotBefore) && !t.After(crt.NotAfter) }
+					m.res.Count("cert_txs", 1)
+					if in(real) != in(skewed) {
+						m.res.Count("cert_txs_valid_at_one_wall_clock_only", 1)
+					}
+				}
+			}
+		}
+	}
 	if len(o.Res.Events) > 6 {
 		m.res.Count("tx_with_many_events", 1)
 	}
+}
+
+// vC07Skew is the wall-clock skew (seconds) this process runs under.
+func vC07Skew() int64 {
+	n, _ := strconv.ParseInt(os.Getenv("VERIF_TIME_SKEW_SEC"), 10, 64)
+	return n
 }
 
 func vResString(r abci.ResponseDeliverTx) string {
@@ -165,12 +195,23 @@ func (m *vMonC07) End(h *vHist) {
 
 func TestVerif_C07(t *testing.T) {
 	res := vs.NewResult("C07", "exploration",
-		"every tx of seeded histories (audit merges/deletes, provider updates, overdrafts with several payments, lost-bid fan-out weighted up) is delivered as identical bytes to 3 replicas of the real app in one process (the third one is restarted - new application object over the same database - at every third block boundary it crosses): code, data, gas, ordered events (and the log of successful txs) and every block's app hash must be byte-identical; a second OS process with different GOGC/GOMAXPROCS/environment replays the same seed and its per-history digests are compared. distinct = (message kind, result, number of events)")
+		"every tx of seeded histories (audit merges/deletes, provider updates, overdrafts with several payments, lost-bid fan-out weighted up) is delivered as identical bytes to 3 replicas of the real app in one process (the third one is restarted - new application object over the same database - at every third block boundary it crosses): code, data, gas, ordered events (and the log of successful txs) and every block's app hash must be byte-identical; a second OS process with different GOGC/GOMAXPROCS/environment and a third one whose wall clock is shifted by -20 years (time.Now() patched through the build overlay) replay the same seed and their per-history digests are compared with the first. distinct = (message kind, result, number of events)")
 	res.Assume("replicas run in one address space per process plus one further process; Tendermint consensus itself is not run")
 	res.Floor("attestation_merge_3plus_keys", 50)
 	res.Floor("attestation_delete", 5)
 	res.Floor("histories_compared", 10)
 	res.Floor("replica_restarts", 20)
+	if vs.Stage() == "proc3" {
+		// the third process runs with its wall clock shifted (stdlib time
+		// overlaid by the driver); make sure the shift is in force
+		if sk := vC07Skew(); sk == 0 || time.Now().Year() > 2015 {
+			res.Inconclusive(fmt.Sprintf("clock skew not in force in the third process (VERIF_TIME_SKEW_SEC=%d, time.Now()=%s)", sk, time.Now().Format(time.RFC3339)))
+			_ = res.Write()
+			return
+		}
+		res.Floor("cert_txs_valid_at_one_wall_clock_only", 5)
+		res.Extra("wall_clock_of_this_process", time.Now().UTC().Format("2006-01-02"))
+	}
 	digests := &vC07Digests{m: map[string]string{}}
 	vRunChainCheck(t, res, vChainOpts{Histories: [2]int{70, 3000}, Templates: 3, RandomSteps: 50,
 		Tune: func(g *vGen) {
